@@ -498,7 +498,15 @@ impl SModel {
                 if res.ok {
                     self.ok_results.fetch_add(1, Ordering::Relaxed);
                 }
-                let fp = fingerprint(s, &r.env);
+                let fp = if self.cheap_fingerprint {
+                    // no search runs on these (histories are enumerated): the history itself is the state
+                    let mut f = crate::util::Fnv::new();
+                    f.bytes(format!("{:?}", hist).as_bytes());
+                    f.u64(res.ok as u64 ^ res.digest);
+                    f.get() as u128
+                } else {
+                    fingerprint(s, &r.env)
+                };
                 self.seen.lock().unwrap().insert(fp as u64 ^ (state.faulted || fault_script) as u64);
                 if let Some(m) = panic_msg {
                     bad = Some(format!("panic in {:?}: {}", op, m));
@@ -886,6 +894,120 @@ impl Space for HugeOpen {
             }
         }
         out.nontrivial(idx + 0x4000);
+    }
+}
+
+// ------------------------------------------------------------------ sessions on a multi-megabyte file
+/// Every history of up to `depth` queries on an 18.5 MiB file whose sections are 9 MiB, 6 MiB,
+/// 2 MiB, 1 MiB and 2 x 0.25 MiB large: behaviour that depends on the total number of bytes cached
+/// (budgets, evictions, size-class switches) is out of reach of the small images.
+pub struct HugeSession {
+    pub which: Which,
+    pub depth: usize,
+    pub encs: usize,
+}
+fn huge_session_image(enc: Enc) -> Image {
+    let mut spec = Spec::new(enc, TableOrder::Linker);
+    let symsz = layout(Kind::Sym, enc.class).size;
+    let mib = 1usize << 20;
+    let fill = |n: usize, salt: u64| -> Vec<u8> { (0..n).map(|i| ((i as u64).wrapping_mul(0x9e3779b97f4a7c15).wrapping_add(salt) >> 56) as u8).collect() };
+    let strtab = |n: usize| -> Vec<u8> { (0..n).map(|i| if i % 9 == 0 || i + 1 == n { 0 } else { b'a' + (i % 23) as u8 }).collect() };
+    let symtab = |bytes: usize, strlen: usize| -> Vec<u8> {
+        let n = bytes / symsz;
+        let mut v = Vec::with_capacity(n * symsz);
+        for i in 0..n {
+            let vals: Vec<u64> = if i == 0 { vec![0; 6] } else { vec![((i * 9) % strlen) as u64, 0x1000 + i as u64, 8, 0x12, 0, 1] };
+            v.extend_from_slice(&encode(Kind::Sym, enc, &vals, 0));
+        }
+        v
+    };
+    spec.secs = vec![
+        Sec::new(b".text", SHT_PROGBITS, fill(9 * mib + 1, 1)),
+        Sec::new(b".symtab", SHT_SYMTAB, symtab(6 * mib, 2 * mib)).link(3).entsize(symsz as u64),
+        Sec::new(b".strtab", SHT_STRTAB, strtab(2 * mib)),
+        Sec::new(b".data", SHT_PROGBITS, fill(mib, 2)),
+        Sec::new(b".dynsym", SHT_DYNSYM, symtab(mib / 4, mib / 4)).link(6).entsize(symsz as u64),
+        Sec::new(b".dynstr", SHT_STRTAB, strtab(mib / 4)),
+    ];
+    let b = build(&spec);
+    let mut img = image_from_bytes(&format!("huge-session/{}", enc.name()), b.bytes, None, &[".data"], 8);
+    img.ops = vec![
+        Op { kind: OpKind::SectionData, arg: 1 },
+        Op { kind: OpKind::SymbolTable, arg: 0 },
+        Op { kind: OpKind::SectionData, arg: 4 },
+        Op { kind: OpKind::DynSymbolTable, arg: 0 },
+        Op { kind: OpKind::AsStrtab, arg: 3 },
+        Op { kind: OpKind::ShdrsWithStrtab, arg: 0 },
+    ];
+    img
+}
+impl Space for HugeSession {
+    fn name(&self) -> String {
+        format!("{:?}: every history of 1..={} queries out of {{.text data (9 MiB), symbol_table (6 + 2 MiB), .data data (1 MiB), dynamic_symbol_table (2 x 0.25 MiB), .strtab as string table (2 MiB), section headers + names}} on an 18.5 MiB file{}; {} encoding(s)", self.which, self.depth, if self.which == Which::C17 { ", each single fault in the last query of every history of <= 2 queries" } else { "" }, self.encs)
+    }
+    fn size(&self) -> u64 {
+        6 * self.encs as u64
+    }
+    fn chunk_hint(&self) -> u64 {
+        1
+    }
+    fn hang_secs(&self) -> u64 {
+        900
+    }
+    fn describe(&self, idx: u64) -> Value {
+        json!({"encoding": ENCS[if idx / 6 == 0 { 2 } else { 1 }].name(), "first_query": idx % 6, "file_bytes": "about 19.4 million"})
+    }
+    fn run(&self, idx: u64, out: &mut Outcome) {
+        let enc = ENCS[if idx / 6 == 0 { 2 } else { 1 }];
+        let img = huge_session_image(enc);
+        let ops = img.ops.clone();
+        let mut m = SModel::new(img, self.which, 0);
+        m.cheap_fingerprint = true;
+        let init = m.init_states()[0].clone();
+        let opened = match m.step(&init, &Act { kind: ActKind::Open(0), script: vec![] }) {
+            Some(s) if s.bad.is_none() && s.phase == 1 => s,
+            other => {
+                out.violate("huge-session:open", format!("the 18.5 MiB file does not open through the stream: {:?}", other.and_then(|s| s.bad)));
+                return;
+            }
+        };
+        // depth-first over histories that start with ops[idx % 6]
+        let mut stack: Vec<(SState, usize)> = Vec::new();
+        let first = ops[(idx % 6) as usize];
+        let mut pending: Vec<(SState, Op, usize)> = vec![(opened, first, 1)];
+        let mut histories = 0u64;
+        while let Some((st, op, d)) = pending.pop() {
+            let mut scripts: Vec<Vec<(u32, Choice)>> = vec![vec![]];
+            if self.which == Which::C17 && d <= 2 {
+                m.scripts(&st.hist, &ActKind::Op(op), Vec::new(), 1, &mut scripts);
+            }
+            for sc in scripts {
+                let plain = sc.is_empty();
+                let t = match m.step(&st, &Act { kind: ActKind::Op(op), script: sc.clone() }) {
+                    Some(t) => t,
+                    None => continue,
+                };
+                out.transitions += 1;
+                if let Some(bad) = &t.bad {
+                    let key = if bad.contains("panic") { format!("panic:huge session in {}", panic_site(bad)) } else { format!("huge-session:{:?}", op.kind) };
+                    let h: Vec<String> = t.hist.iter().map(|a| format!("{:?}{}", a.kind, if a.script.is_empty() { String::new() } else { format!("{:?}", a.script) })).collect();
+                    out.violate(key, format!("history {}: {}", h.join(" ; "), bad));
+                    return;
+                }
+                if plain {
+                    histories += 1;
+                    if d < self.depth {
+                        for o in &ops {
+                            pending.push((t.clone(), *o, d + 1));
+                        }
+                    }
+                }
+            }
+        }
+        let _ = &mut stack;
+        out.states += histories;
+        out.count_n("histories", histories);
+        out.nontrivial(idx ^ 0x4855_4745 ^ histories << 16);
     }
 }
 
